@@ -1110,6 +1110,9 @@ def causes_of(p):
     return sorted(found)
 
 
+SQL_TEXT_ONLY = [0]        # rebuilt pipelines whose SQL text differs while both texts return the same table (counted in the evidence)
+
+
 def oracle(p, rng, frames=None, which=None):
     """-> list of failures: dicts {variant, kind, detail, text}"""
     E = env()
@@ -1125,9 +1128,21 @@ def oracle(p, rng, frames=None, which=None):
             fails.append({"variant": name, "kind": "not_equal", "detail": f"q == p: {a[1]!r}, p == q: {b[1]!r}", "text": text})
             return
         sql_q = safe(lambda: q.to_sql())
-        if sql_q[0] != sql_p[0] or (sql_p[0] == "ok" and sql_q[1] != sql_p[1]):
+        if sql_q[0] != sql_p[0]:
             fails.append({"variant": name, "kind": "sql_differs", "detail": f"{sql_p[1][:200]!r} vs {sql_q[1][:200]!r}", "text": text})
             return
+        if sql_p[0] == "ok" and sql_q[1] != sql_p[1]:
+            # The property asks for an equal pipeline with the same RESULT, not for the same SQL text: the generator lists the columns of
+            # an intermediate SELECT in the iteration order of a Python set, which a pickle round trip (sets are rebuilt element by
+            # element) may change.  Texts that differ are therefore executed on SQLite on the corner frames: only a different table or a
+            # different failure is a violation (a difference that is only textual is counted).
+            ra = safe(lambda: E["pipes"].eval_sqlite(p, frames, sql=sql_p[1]))
+            rb = safe(lambda: E["pipes"].eval_sqlite(q, frames, sql=sql_q[1]))
+            same_sql_result = ra[0] == rb[0] and (ra[0] != "ok" or E["pipes"].frames_equiv(ra[1], rb[1], check_col_order=True, check_row_order=False) is None)
+            if not same_sql_result:
+                fails.append({"variant": name, "kind": "sql_differs", "detail": f"{sql_p[1][:200]!r} vs {sql_q[1][:200]!r}; executed: {str(ra[1])[:80]} / {str(rb[1])[:80]}", "text": text})
+                return
+            SQL_TEXT_ONLY[0] += 1
         res_q = safe(lambda: E["pipes"].eval_pandas(q, frames))
         if res_q[0] != res_p[0]:
             fails.append({"variant": name, "kind": "result_differs", "detail": f"original {res_p[0]}: {str(res_p[1])[:120]} / rebuilt {res_q[0]}: {str(res_q[1])[:120]}", "text": text})
@@ -1490,7 +1505,8 @@ def run(chk):
             add_case("(CNormal %s %s true)" % (ec, cp), dict(info, what="normal"))
             n_normal += 1
     chk.cov["oracle"].update(oracle_stats)
-    chk.cov["oracle"]["what"] = "q = eval_da_ops(text) for to_python plain / indent=4 / pretty, repr, str, black line_length=40, and pickle: no exception, q == p, p == q, same to_sql text, same Pandas result (column and row order)"
+    chk.cov["oracle"]["what"] = "q = eval_da_ops(text) for to_python plain / indent=4 / pretty, repr, str, black line_length=40, and pickle: no exception, q == p, p == q, same to_sql text or -- when only the text differs -- the same table from both texts on SQLite, same Pandas result (column and row order)"
+    chk.cov["oracle"]["sql_text_differs_same_table"] = SQL_TEXT_ONLY[0]
     check_float_assumption(chk, all_floats)
 
     phase["pipelines_and_oracle"] = round(time.time() - tph, 1)
